@@ -118,8 +118,13 @@ def small_values():
     )
 
 
-def field_dicts(max_size=3):
-    return st.dictionaries(field_names(), small_values(), max_size=max_size)
+def field_dicts(max_size=3, names=None):
+    return st.dictionaries(names if names is not None else field_names(), small_values(), max_size=max_size)
+
+
+def colliding_field_names():
+    """Field names incl. the three keys eliot sets itself on every message (it must win)."""
+    return st.one_of(field_names(), st.sampled_from(["task_uuid", "task_level", "timestamp"]))
 
 
 # --------------------------------------------------------------------------
@@ -150,6 +155,17 @@ def rich_values():
     nonfinite = st.sampled_from(["nan", "inf", "-inf"]).map(lambda s: tag("float", v=s))
     tuples = st.lists(native_leaves(), max_size=3).map(lambda xs: tag("tuple", v=xs))
     return st.one_of(dates, times, dts, paths, sets, cplx, nonfinite, tuples)
+
+
+BIG_SIZES = [4090, 4096, 4100, 8150, 8185, 8192, 8200, 16384, 65530, 65536, 70000, 300000]
+
+
+def bigtexts():
+    return st.builds(
+        lambda unit, n: tag("bigtext", unit=unit, n=n),
+        st.sampled_from(["a", "é", "x\"", "\U0001f600", "ab\n"]),
+        st.one_of(st.sampled_from(BIG_SIZES), st.integers(4000, 9000)),
+    )
 
 
 def chains():
@@ -212,6 +228,10 @@ def decode(v):
             return Custom(decode(v["v"]))
         if t == "bytes":
             return bytes.fromhex(v["hex"])
+        if t == "bigtext":
+            return (v["unit"] * (v["n"] // len(v["unit"]) + 1))[: v["n"]]
+        if t == "override":
+            return decode(v["v"])
         if t == "chain":
             out = decode(v["leaf"])
             for i in range(v["depth"]):
@@ -254,6 +274,8 @@ def normal(v):
             return [normal(x) for x in v["v"]]
         if t == "custom":
             return {"custom": normal(v["v"])}
+        if t == "bigtext":
+            return decode(v)
         if t == "chain":
             out = normal(v["leaf"])
             for i in range(v["depth"]):
@@ -301,6 +323,8 @@ def features(v, depth=0, out=None):
             out["rich"].add(v[TAG])
             if v[TAG] == "chain":
                 out["depth"] = max(out["depth"], depth + v["depth"])
+            if v[TAG] == "bigtext" and v["n"] >= 8192:
+                out["big"] = True
         else:
             for k, x in v.items():
                 features(k, depth + 1, out)
